@@ -133,7 +133,11 @@ def decode_harness(first: int | None, n_records: int | None = None, sub: int | N
                 return (pdu.t[3 + 4 * i] * 65536 + pdu.t[4 + 4 * i] * 256 + pdu.t[5 + 4 * i])
             distinct = z3.And(*[dtc(i) != dtc(j) for i in range(n_records)
                                 for j in range(i + 1, n_records)])
-            if I.choose([distinct, z3.Not(distinct)]) == 1:
+            if n_records >= 3:
+                # thorough tier: three records are explored for pairwise distinct DTCs only (the
+                # repeated-DTC case is the listed finding, shown by the two-record units)
+                I.assume(distinct)
+            elif I.choose([distinct, z3.Not(distinct)]) == 1:
                 orig = I.prove
                 I.prove = lambda name, f, detail="": orig(  # type: ignore[method-assign]
                     name + "{repeated-DTC}", f, detail)
